@@ -2,13 +2,13 @@
 """tools/seed_table.py: markdown table of the seeded changes kept under /verif/seeded (from their meta.json)"""
 import json, glob, os, re
 rows = []
-for d in sorted(glob.glob("/verif/seeded/*")):
+for d in sorted(glob.glob("/verif/seeded/C*-*")):
     m = json.load(open(os.path.join(d, "meta.json")))
     sid = os.path.basename(d)
     what = re.sub(r"\s+", " ", str(m.get("what", "")))[:170]
     r = str(m.get("check_result", ""))
     rl = r.lower()
-    first = ("NOT caught (outside the quantifier, by decision)" if rl.startswith("not caught") else
+    first = ("NOT caught (see meta.json: too rare for the generators, or inside the 1e-9 genericity margin)" if rl.startswith("not caught") else
              "missed at first, caught now" if ("missed" in rl or "first run" in rl) else
              "alarm without a failing input (no-failing-input-found)" if ("no-failing-input-found" in rl and "caught with a concrete" not in rl and "caught after" not in rl) else
              "alarm only at first, concrete input now" if "alarm only at first" in rl or "crashed at first" in rl else "caught")
